@@ -49,6 +49,10 @@ func (l *Lexer) RegisterCustomTokens(tokenMap map[string]token.TokenType) {
 }
 
 func (l *Lexer) skipBytes(n int) {
+	// The skipped bytes (long string delimiters) belong to the source line GetLine reports
+	if b, _ := l.r.Peek(n); len(b) > 0 {
+		l.buffer.Write(b)
+	}
 	discarded, err := l.r.Discard(n)
 	if err != nil {
 		l.char = 0x00
